@@ -8,6 +8,8 @@
 //            file /v/m.sqf
 // stdout, one line per case:  <route>=<result> \t <route>=<result> ...
 //   result = <class>|<codes>|<payload>|<ms>|<kb>[|NONDET:<class>|<codes>|<payload>]
+//   a route written 2x<route> (2xSQF, 2xCOMPILE, ...) is run twice on the SAME runtime and once on the second, fresh one:
+//            <first>|<ms>|<kb>[|RUN2:<class>|<codes>|<payload>][|FRESH:<class>|<codes>|<payload>]   (only what differs from the first)
 //   ms     = wall time of the first of the two runs; kb = rise of the child's peak resident memory over both runs
 //   class  = SOME | NONE        (result returned / no result)
 //   codes  = comma separated level:code of every diagnostic of level warning or worse ('-' if none)
@@ -250,6 +252,21 @@ int main(int argc, char** argv)
             // scaling family has one route, its difference is the route's own peak)
             struct rusage ru0, ru1;
             getrusage(RUSAGE_SELF, &ru0);
+            if (r.rfind("2x", 0) == 0)
+            {   // determinism inside ONE runtime: the route twice on vm1 (same parser objects, same path), then on the fresh vm2
+                std::string base = r.substr(2);
+                auto t0 = std::chrono::steady_clock::now();
+                std::string a = route(base, text, vm1, cx);
+                auto t1 = std::chrono::steady_clock::now();
+                std::string a2 = route(base, text, vm1, cx);
+                std::string b = route(base, text, vm2, cx);
+                getrusage(RUSAGE_SELF, &ru1);
+                long ms = (long)std::chrono::duration_cast<std::chrono::milliseconds>(t1 - t0).count();
+                std::string res = r + "=" + a + "|" + std::to_string(ms) + "|" + std::to_string(ru1.ru_maxrss - ru0.ru_maxrss);
+                if (a2 != a) res += "|RUN2:" + a2;
+                if (b != a) res += "|FRESH:" + b;
+                return res;
+            }
             auto t0 = std::chrono::steady_clock::now();
             std::string a = route(r, text, vm1, cx);
             auto t1 = std::chrono::steady_clock::now();
